@@ -50,7 +50,8 @@ PROP = {'gen': [],
                'full). Counted obligations: C02_total_event/_command, C02_run_no_panic_event/_command (the run in which a panicking '
                'payload decoder aborts at the byte where it is called, also for candidates later replaced), C02_payload_no_panic '
                '(_command), C02_utf8_decoder, C02_utf8_decoder_chunking, C02_chars_scalar, C02_numbers, C02_parameter_values, '
-               'C02_cursor_position, C02_numeric_fields, C02_mouse_protocol, C02_mouse_unnamed, C02_spans_in_order(_command); for every '
+               'C02_cursor_position, C02_numeric_fields, C02_modified_keys, C02_mouse_protocol, C02_mouse_unnamed, C02_spans_in_order(_command); '
+               'for every '
                'byte string and every partition into reads: no payload decoder panics on any string the automaton accepts (three '
                'shape certificates - lengths, XTWINOPS pieces, XTGETTCAP hex fields - and the palette table sizes, checked by '
                'reflection on the regenerated tables), the loops terminate, an exhausted decoder returns None, Utf8Decoder never '
